@@ -19,6 +19,32 @@ var OneLine = []string{
 	strings.Repeat("long-title-", 30),
 }
 
+// InvalidUTF8: byte strings that are not unicode but that the editing API accepts (its validators
+// look for control characters only). encoding/json stores each offending byte as the escape of
+// U+FFFD, so the payload cannot come back byte for byte; the ids still have to be the hash of what is
+// stored and stable. They are compared "as stored" (see asStored in exec.go).
+var InvalidUTF8 = []string{
+	"lone \xff byte",
+	"truncated sequence at the end \xc3",
+	"truncated \xc3 in the middle",
+	"overlong \xc0\x80 encoding",
+	"surrogate half \xed\xa0\x80 in utf-8",
+}
+
+func init() {
+	// appended last so that the indices of the older values stay what they were
+	OneLine = append(OneLine, InvalidUTF8...)
+	Text = append(Text, InvalidUTF8...)
+	FileLists = append(FileLists, []int{}) // an empty, non-nil list: stored as [] instead of null
+	MetaMaps = append(MetaMaps,
+		map[string]string{},                                 // empty, non-nil: {} / omitted
+		map[string]string{"bad key \xff": "value"},          // key that is not valid UTF-8
+		map[string]string{"key": "bad value \xc3"},          // value that is not valid UTF-8
+		map[string]string{"k\xed\xa0\x80": "v\xc0\x80 end"}, // both
+	)
+	LabelLists = append(LabelLists, []string{"label \xff", "trunc \xc3"})
+}
+
 // Text values: messages and metadata values (the one-line values, then multi-line ones).
 var Text = append(append([]string{}, OneLine...),
 	"",
